@@ -186,6 +186,8 @@ PinHeldP(C, o, held) == ((~C.any_pin) /\ (o.wipe_ok = "t" \/ o.change_ok = "t"))
 (* Carried: when the preconditions hold the operation is carried out.      *)
 (* C = [op, plat, any_pin, no_unlock, src, pins, upin, outfile, answers,   *)
 (*      d0 : [mode, onb, echo], acc : [wipe, unlock, newpin], prev_seed]   *)
+(* d0.onb = "garbled": the device answers IS_ONBOARD with neither yes nor  *)
+(* no - no precondition holds.                                             *)
 (* "?" in d0 = the run never looked at that dimension (model only): it is  *)
 (* read in favour of the precondition, which only strengthens the check.   *)
 (* Where the property text leaves the precondition open (any-PIN allowed   *)
